@@ -12,12 +12,13 @@ RW = [("opts: PackageInputs", "opts: PackageInputs"),
       ("let mut deps_envs = HashMap::new();", "let mut deps_envs = StrMap::<GlobalTypeEnv>::new();"),
       ("let mut deps_interfaces = HashMap::new();", "let mut deps_interfaces = StrMap::<PackageInterface>::new();"),
       ("let mut dep_hashes = BTreeMap::new();", "let mut dep_hashes = DepMap::new();"),
-      ('dep == "Builtin" || dep == opts.package', 'str_eq_lit(&dep, "Builtin") || str_eq_lit(&dep, opts.package.as_str())'),
+      ('dep == "Builtin"', 'str_eq_lit(&dep, "Builtin")', "*"), ("dep == opts.package", "str_eq_lit(&dep, opts.package.as_str())", "*"),
       (re.compile(r"\bdep\.clone\(\)"), "string_clone(&dep)", "*"),
       ("unit.hir_interface.clone()", "hir_interface_clone(&unit.hir_interface)"),
       (re.compile(r"unit\.interface_hash\.clone\(\)"), "string_clone(&unit.interface_hash)", "*"),
       ]
 INV = """invariant built_against(deps_envs@, deps_interfaces@, dep_hashes.view2()),
+               imports_g.contains(opts.package@) ==> pending(__iv0@, opts.package@),
            decreases __iv0@.len(),"""
 
 
@@ -28,26 +29,32 @@ def frag(name, cut, tail, extra_rw=()):
               obligation="type checking is entered only with, per dependency, the environment, HIR interface and recorded hash of ONE usable interface unit of that package",
               rewrites=RW + list(extra_rw),
               contract="",
-              ghost=[("?dep_hashes.insert(", "line-after", "proof { assert(built_against(deps_envs@, deps_interfaces@, dep_hashes.view2())) by { let u = unit; assert(u.usable()); } }")],
+              ghost=[("let deps: Vec<String> = sorted_import_names(imports);", "line-before", "let ghost imports_g = imports@;"),
+                     ("let mut dep_hashes = DepMap::new();", "line-after",
+                      "proof { if imports_g.contains(opts.package@) { let i = choose|i: int| 0 <= i < deps@.len() && (#[trigger] deps@[i])@ == opts.package@; lemma_pending_intro(deps@, i, opts.package@); } }"),
+                     ("?dep_hashes.insert(", "line-after", "proof { assert(built_against(deps_envs@, deps_interfaces@, dep_hashes.view2())) by { let u = unit; assert(u.usable()); } }")],
               loops={0: INV})
 
 
 UNIT = Unit(
     name="U-DEPREC",
-    properties=["C15"],
+    properties=["C15", "C16"],
+    # the self-import clause (type checking is never entered by a package that imports itself: a 1-cycle) is C16's; the rest is C15's
+    clause_scope={"C16": {"only": ["not_self_import(", "pending("]}, "C15": {"except": ["not_self_import(", "pending("]}},
     rules=["attrs", "fmtmsg", "msg_to_string"],
     describe="separate::{check_package, build_package} up to type checking (fragments): for every imported package, the type environment, the HIR "
-             "interface and the hash recorded in `deps` all come from ONE usable interface unit of that package (what `link` later compares)",
+             "interface and the hash recorded in `deps` all come from ONE usable interface unit of that package (what `link` later compares); "
+             "(C16) type checking is never entered by a package that imports itself — the 1-cycle is an error in the separate drivers too",
     trusted=["FRAGMENT: everything from `typecheck_single_package` on is replaced by an opaque continuation whose precondition is the consistency statement",
-             "read_source_files, HashMap/BTreeMap and the import-list sort/dedup are shims; load_interface_from_paths is the contract proved in U-ART"],
+             "read_source_files is a stub carrying the clause proved on the real function in U-LOADPKG (Ok only for a package not named Builtin); HashMap/BTreeMap and the import-list sort/dedup are shims; load_interface_from_paths is the contract proved in U-ART"],
     items=art_types + [Raw(path="contracts/deprec.shim.rs"), loader,
                        frag("check_package", "let (tast, exports, hir_interface, diagnostics) =",
-                            "    check_rest(&opts.package, files, deps_interfaces, deps_envs, dep_hashes)",
+                            "    check_rest(&opts.package, files, deps_interfaces, deps_envs, dep_hashes, Ghost(imports_g))",
                             [("let (files, imports, _sources) = read_source_files(&opts.package, &opts.input_files)?;",
                               "let (files, imports, _sources) = match read_source_files(&opts.package, &opts.input_files) { Ok(v) => v, Err(e) => { return Err(e); } };"),
                              (re.compile(r"load_interface_from_paths\(&dep, &opts\.interface_paths\)\?"), "(match load_interface_from_paths(dep.as_str(), &opts.interface_paths) { Ok(v) => v, Err(e) => { return Err(e); } })", "*")]),
                        frag("build_package", "let (tast, exports, hir_interface, diagnostics) =",
-                            "    build_rest(&opts.package, files, sources, deps_interfaces, deps_envs, dep_hashes, dep_units)",
+                            "    build_rest(&opts.package, files, sources, deps_interfaces, deps_envs, dep_hashes, dep_units, Ghost(imports_g))",
                             [("let (files, imports, sources) = read_source_files(&opts.package, &opts.input_files)?;",
                               "let (files, imports, sources) = match read_source_files(&opts.package, &opts.input_files) { Ok(v) => v, Err(e) => { return Err(e); } };"),
                              (re.compile(r"load_interface_from_paths\(&dep, &opts\.interface_paths\)\?"), "(match load_interface_from_paths(dep.as_str(), &opts.interface_paths) { Ok(v) => v, Err(e) => { return Err(e); } })", "*")]),
